@@ -239,6 +239,22 @@ def abandon_fixed_case(engine):
     return core.Case("engine", lines, {"engine": engine, "abandon": True})
 
 
+def storm_case(engine):
+    """`storm <n> <ops>`: before each of the first n prewrites of the next `bcommit` - the open transaction's and those of
+    the re-runs inside the adapter's Commit - a writer on the same key is abandoned. Eight in a row: the ninth attempt
+    commits. Nine in a row: every attempt met a write conflict - an ERROR (/repo ce077f1), never 'condition failed';
+    nothing is applied. (Ties `maxConflictRetry` = 8.)"""
+    k, k2 = hx(b"k"), hx(b"k2")
+    lines = ["cfg engine=%s rpcfault=abandon" % engine, "batch put:%s:%s" % (k, hx(b"v1")),
+             "bbegin b1 cas:%s:%s:%s" % (k, hx(b"vB"), hx(b"v1")), "storm 9 put:%s:%s" % (k, hx(b"z")), "bcommit b1", "get %s" % k,
+             "bbegin b2 cas:%s:%s:%s" % (k, hx(b"vB"), hx(b"v1")), "storm 8 cas:%s:%s:%s" % (k, hx(b"z"), hx(b"v1")), "bcommit b2", "get %s" % k,
+             "bbegin b3 delcur:%s" % k, "storm 9 del:%s" % k, "bcommit b3", "get %s" % k,
+             "bbegin b4 pine:%s:%s" % (k2, hx(b"n")), "storm 10 pine:%s:%s" % (k2, hx(b"nA")), "bcommit b4", "get %s" % k2,
+             "bbegin b5 pine:%s:%s delcur:%s" % (k2, hx(b"n"), k), "storm 3 put:%s:%s" % (k, hx(b"z")), "bcommit b5",
+             "get %s" % k, "get %s" % k2, "dump"]
+    return core.Case("engine", lines, {"engine": engine, "abandon": True})
+
+
 def slow_writer_case(engine, kind):
     """no cancellation at all: writer A's COMMIT RPC is merely slow (`astart`: prewritten, then held). The open batch B
     is older than A's lock: its first attempt meets a write conflict; the key has not changed. B's re-run waits for
@@ -315,9 +331,14 @@ def abandon_case(seed, i, engine):
                 ref = ref if after is None else after
             else:
                 lines.append("get %s" % hx(r.choice(bkeys)))
+        storm = 0
+        if r.random() < 0.25:
+            # a run of abandoned writers, one before each of the first n prewrites of this commit (9 = all of them)
+            storm = r.choice([1, 2, 8, 9, 9, 10])
+            lines.append("storm %d %s" % (storm, writer_on(r.choice(bkeys))))
         lines.append("bcommit " + bid)
         new = _holds(parsed, ref)
-        if new is not None and held_at_begin:
+        if new is not None and held_at_begin and storm < 9:
             ref = new
         for k in bkeys:
             lines.append("get %s" % hx(k))
@@ -471,7 +492,7 @@ def check(rep, tier, seed):
                              {"engine": "tikv", "special": "scan2"}, compare=lambda op: False))
     cases += special
     # abandoned transactions: a rollback record is not a change of the key (tikv, bare and behind the metrics wrapper)
-    ab = [abandon_fixed_case(e) for e in ("tikv", "metrics-tikv")]
+    ab = [abandon_fixed_case(e) for e in ("tikv", "metrics-tikv")] + [storm_case(e) for e in ("tikv", "metrics-tikv")]
     ab += [abandon_case(seed, i, ("tikv", "metrics-tikv")[i % 2]) for i in range(2 if tier == "quick" else 400)]
     if tier != "quick":
         # the schedule without any cancellation (waits for TiKV's 3 s lock ttl: not in the quick tier)
@@ -511,8 +532,8 @@ def check(rep, tier, seed):
             core.handle_diff(rep, "C11", "correspondence", c)
             return
     rep.cov["abandoned_writer_scripts"] = len(ab)
-    rep.assumptions += ["tikv: a write conflict is settled by re-running the batch at most 8 times; nine consecutive conflicts still answer the bare "
-                        "'condition failed' (KB.C11Conflict.nine_abandoned_writers_still_spurious - residual, not produced by the harness)",
+    rep.assumptions += ["tikv: a write conflict is settled by re-running the batch at most 8 times; nine consecutive conflicts are an ERROR "
+                        "(/repo ce077f1; KB.C11Conflict.persistent_conflict_is_error_and_applies_nothing; produced by `storm 9`)",
                         "non-empty values (tikv refuses empty values altogether)",
                         "sequential use of one engine handle; snapshot isolation of the third-party engines under real concurrency is assumed (differentially sampled only)",
                         "badger's DelCurrent compares versions (a rewrite with identical bytes also fails) — modelled"]
